@@ -10,6 +10,7 @@ mod fam_extract;
 mod fam_frame;
 mod fam_history;
 mod fam_list;
+mod fam_foreign;
 mod fam_round;
 mod fam_split;
 mod fam_tree;
@@ -62,6 +63,8 @@ fn main() {
         "extract-fs" => fam_extract::extract_fs(&mut ctx),
         "list" => fam_list::list(&mut ctx),
         "roundtrip" => fam_round::roundtrip(&mut ctx),
+        "foreign" => fam_foreign::foreign(&mut ctx),
+        "hostile-solid" => fam_foreign::hostile_solid(&mut ctx),
         "split" => fam_split::split(&mut ctx),
         "cli-tree" => fam_tree::cli_tree(&mut ctx),
         f => {
